@@ -319,6 +319,18 @@ func c11BFS(alpha []ref.Sym, maxStates int) []c11State {
 type c11Params struct {
 	MaxStates int `json:"max_states"`
 	SeqLen    int `json:"seq_len"`
+	// Reduced: use the reduced alphabet (URL, TYPE, GET with/without path, response code, Request, Body, Tags, each
+	// implicit/explicit, and ')') so that longer sequences can be enumerated without deduplication
+	Reduced bool `json:"reduced"`
+}
+
+func c11ReducedAlphabet() []ref.Sym {
+	var out []ref.Sym
+	for _, k := range []string{"URL", "TYPE", "CODE", "Request", "Body", "Tags", "POST"} {
+		out = append(out, ref.Sym{Kind: k}, ref.Sym{Kind: k, Explicit: true})
+	}
+	out = append(out, ref.Sym{Kind: "GET", HasPath: true}, ref.Sym{Kind: "GET", HasPath: true, Explicit: true}, ref.Sym{Kind: "GET"}, ref.Sym{Kind: "GET", Explicit: true})
+	return append(out, ref.Sym{Close: true})
 }
 
 func workerDir(w *run.W) string {
@@ -384,6 +396,9 @@ func workC11Seq(w *run.W) {
 	defer os.RemoveAll(dir)
 	os.WriteFile(filepath.Join(dir, "e.jst"), nil, 0o644)
 	alpha := c11Alphabet()
+	if p.Reduced {
+		alpha = c11ReducedAlphabet()
+	}
 	n := len(alpha)
 	var idx int64
 	for L := 1; L <= p.SeqLen; L++ {
@@ -402,7 +417,7 @@ func workC11Seq(w *run.W) {
 				seq[i] = alpha[x%n]
 				x /= n
 			}
-			if !w.Begin(fmt.Sprintf("seq%d:%d", L, c)) {
+			if !w.Begin(fmt.Sprintf("seq%v/%d:%d", p.Reduced, L, c)) {
 				continue
 			}
 			key, what, outcome := c11Compare(seq, dir)
@@ -427,6 +442,10 @@ func runC11(c *chk.Ctx) {
 	c.Merge(r, "transitions")
 	r2 := c.Pool.Run("c11seq", p)
 	c.Merge(r2, "sequences")
+	pr := c11Params{SeqLen: chk.Pick(c, 5, 6), Reduced: true}
+	r3 := c.Pool.Run("c11seq", pr)
+	c.Merge(r3, "sequences")
+	c.Cov["reduced_alphabet_seq_len"] = pr.SeqLen
 	cnt := c.Counts()
 	c.Cov["states"] = cnt["states"]
 	c.Cov["transitions"] = cnt["transitions"]
@@ -439,7 +458,7 @@ func runC11(c *chk.Ctx) {
 		json.Unmarshal(b[0], &m)
 		c.Cov["bfs"] = m
 	}
-	c.Cov["rule"] = "states = reachable open-context chains of the reference automaton (all of them); from every state every symbol of the alphabet (kind x explicit/implicit x path/no-path, and ')') is executed on the real scanner+context resolution (VerifScanOnly) over text rendered from shortest witness + symbol; verdict, error class, error line, open-context chain and directive tree are compared. Adequacy: all sequences up to length 3 are also run without deduplication."
+	c.Cov["rule"] = "states = reachable open-context chains of the reference automaton (all of them); from every state every symbol of the alphabet (kind x explicit/implicit x path/no-path, and ')') is executed on the real scanner+context resolution (VerifScanOnly) over text rendered from shortest witness + symbol; verdict, error class, error line, open-context chain and directive tree are compared. Adequacy: all sequences up to length 3 over the full alphabet, and all sequences up to length 5 (thorough 6) over a reduced 19-symbol alphabet, are also run without deduplication (this also exposes state that only the PASTE-expansion pass keeps: for MACRO/PASTE-free sequences the tree rebuilt by that pass must equal the reference tree)."
 	c.Cov["exhaustive"] = true
 	c.Assumptions = append(c.Assumptions,
 		"reference automaton (internal/ref/context.go) holds a frozen copy of the JSight API 0.3 allowed-context table",
